@@ -26,13 +26,13 @@ Section Csv.
 Variable O : oracle.
 
 Lemma csv_no_loss_init_fault :
-  forall (s : option string) (c0 d0 : string) (k n : nat) (f0 f1 f2 : fs),
+  forall (s : option string) (c0 d0 : string) (k j n : nat) (f0 f1 f2 : fs),
     f0 = csv_budget s c0 None None d0 ->
-    f1 = after_fault O Init f0 [] k n ->
+    f1 = after_fault O Init f0 [] k j n ->
     f2 = rerun O Init f1 [] ->
     content_kept f0 f1 f2.
 Proof.
-  intros s c0 d0 k n f0 f1 f2 E0 E1 E2. unfold content_kept.
+  intros s c0 d0 k j n f0 f1 f2 E0 E1 E2. unfold content_kept.
   destruct s as [s0|]; subst f0.
   - revert E1; split_k k; norminx2 E1; subst f1; norminx2 E2; subst f2; split; solve_no_loss2.
   - revert E1; split_k k; norminx2 E1; subst f1; norminx2 E2; subst f2; split; solve_no_loss2.
